@@ -105,8 +105,9 @@ def h : Handler := fun op j =>
   | "density_from_concentration_with" => do
       -- conc, T, molar_mass, atol ; "maxiter"
       let a ← floatArgs j 4
-      let mi ← getNat j "maxiter"
-      pure (showExc (densityFromConcentrationWith (fun w => sulfuricAcidDensity w a[1]!) a[0]! a[2]! a[3]! (dfcInit_2 a[0]!) mi))
+      let mi ← getInt j "maxiter"
+      let entered := decide (a[3]! < (1.0 / 0.0 : Float))       -- `atol < abs(float("inf"))`: false for inf and nan
+      pure (showExc (densityFromConcentrationPy entered (fun w => sulfuricAcidDensity w a[1]!) a[0]! a[2]! a[3]! (dfcInit_2 a[0]!) mi.toNat))
   | "lg_solubility_ratio" => do
       let e ← electrolytes j
       let gas ← getStr j "gas"
